@@ -8,6 +8,7 @@
 -/
 import OpmVerif.Proofs.EclBin
 import OpmVerif.Proofs.EclFmt
+import OpmVerif.Proofs.EclFmtFile
 
 namespace OpmVerif.Props.C07
 open OpmVerif.Ecl
@@ -60,8 +61,57 @@ theorem seek_arithmetic_agrees_formatted_string (t : ArrType) (hm : t ≠ .mess)
     (EclFmt.stringBody t fs).length = EclFmt.sizeOnDiskFormatted fs.length t :=
   EclFmt.stringBody_length t hm (EclFmt.fmtParams_pos t hm).1 (EclFmt.fmtParams_pos t hm).2 fs hw
 
+/-- **Formatted write → read**: any sequence of well-formed arrays (any number, every type,
+every length below 2^31 — block and line boundaries included) written by the formatted writer
+(`writeFormattedHeader`, `writeFormattedArray`, `writeFormattedCharArray`) is read back by the
+formatted reader (`EclFile::load` index by `sizeOnDiskFormatted`, `readFormattedHeader`,
+`readFormattedArray` tokens, `std::stoi`, `readFormattedLogiArray`, `readFormattedCharArray`)
+with the same names and types, integers and booleans exact, strings without their trailing
+blanks, and for REAL/DOUB exactly the rendered fields handed to `strtod` (the digits
+themselves are `snprintf`/`strtod`: not modelled here, compared bit-exactly by the
+correspondence through `Model/Strtod.lean`). -/
+theorem roundtrip_formatted (as : List EclFmt.FArr) (h : ∀ a ∈ as, a.WF) :
+    ∃ ds, EclFmt.decodeFmtFile (EclFmt.encodeFmtFile as) = some ds ∧
+      EclFmt.All2 EclFmt.EntryRel as ds :=
+  EclFmt.formatted_roundtrip as h
+
+/-- Strings come back exactly when they carry no trailing blank (the reader trims). -/
+theorem formatted_string_exact (v : List Char) (h : EclFmt.NoTrail v) : EclFmt.trimr v = v :=
+  EclFmt.trimr_noTrail v h
+
+/-- Formatted INTE on its own, with anything behind the array (the reader's buffer holds one
+byte more than the array): every `int` value, every length. -/
+theorem formatted_inte_exact (xs : List Int) (hx : ∀ x ∈ xs, EclFmt.InInt32 x) (tail : List Char) :
+    EclFmt.parseData .inte xs.length (EclFmt.numericBody .inte (xs.map EclFmt.intField) ++ tail) =
+      some (.inte xs) :=
+  EclFmt.inte_roundtrip xs hx tail
+
+/-- The formatted header line is parsed back, whatever follows it. -/
+theorem formatted_header_roundtrip (name : List Char) (n : Nat) (t : ArrType) (hname : EclFmt.NameOk name)
+    (hn : n < 2147483648) (ht : EclFmt.TyOk t) (rest : List Char) :
+    EclFmt.parseHeaderLine ((EclFmt.fmtHeader name n t ++ rest).takeWhile (· ≠ '\n')) =
+        some (name, (n : Int), t) ∧
+      ((EclFmt.fmtHeader name n t ++ rest).dropWhile (· ≠ '\n')).drop 1 = rest :=
+  EclFmt.header_roundtrip name n t hname hn ht rest
+
 /-! Non-vacuity: a concrete well-formed two-array file meets the hypotheses and
 exercises the block loop. -/
+
+def fmtSample : List EclFmt.FArr :=
+  [ { name := "INTEHEAD".toList, t := .inte, ints := [1, -2147483648, 2147483647, 0, 5, 6, 7] },
+    { name := "LOGIHEAD".toList, t := .logi, bools := [true, false] },
+    { name := "NAMES   ".toList, t := .c0nn 10, strs := ["it's".toList, "".toList, "ABCDEFGHIJ".toList] },
+    { name := "MSG     ".toList, t := .mess } ]
+
+example : EclFmt.decodeFmtFile (EclFmt.encodeFmtFile fmtSample) =
+    some [ ("INTEHEAD".toList, .inte, .inte [1, -2147483648, 2147483647, 0, 5, 6, 7]),
+           ("LOGIHEAD".toList, .logi, .logi [true, false]),
+           ("NAMES   ".toList, .c0nn 10, .strs ["it's".toList, [], "ABCDEFGHIJ".toList]),
+           ("MSG     ".toList, .mess, .mess) ] := by
+  decide +kernel
+
+example : EclFmt.NameOk "INTEHEAD".toList ∧ EclFmt.InInt32 (-2147483648) ∧ EclFmt.TyOk (.c0nn 10) :=
+  ⟨⟨by decide, by decide⟩, by unfold EclFmt.InInt32; omega, by intro k hk; cases hk; omega⟩
 
 def sampleInte : Arr :=
   { name := [73, 78, 84, 69, 72, 69, 65, 68], ty := .inte,
